@@ -25,7 +25,10 @@ fn run_acc<const N: usize>(t: &DTy, chunks: &[Vec<u8>], by_ref: bool) -> Result<
     for c in chunks {
         let mut window: &[u8] = &c[..];
         let mut iters = 0usize;
-        while !window.is_empty() {
+        // an empty chunk (a read that returned no bytes) is handed to feed exactly once
+        let mut first = true;
+        while first || !window.is_empty() {
+            first = false;
             iters += 1;
             if iters > 2 * c.len() + 2 {
                 return Err("FAIL the documented feed loop did not terminate within 2*len+2 calls".into());
@@ -256,7 +259,13 @@ pub fn gen_acc(r: &mut Rng, thorough: bool, overflow: bool, out: &mut Vec<String
         for n in caps {
             // every one of the 2^(len-1) chunkings
             for mask in 0..(1u64 << (s.len() - 1)) {
-                out.push(fmt_acc(n, t, &chunking(&s, mask)));
+                let mut cs = chunking(&s, mask);
+                if mask % 8 == 5 {
+                    // empty reads anywhere in the history change nothing
+                    let k = (mask as usize / 8) % (cs.len() + 1);
+                    cs.insert(k, Vec::new());
+                }
+                out.push(fmt_acc(n, t, &cs));
             }
         }
     }
@@ -288,6 +297,12 @@ pub fn gen_acc(r: &mut Rng, thorough: bool, overflow: bool, out: &mut Vec<String
             let e = (i0 + k).min(s.len());
             chunks.push(s[i0..e].to_vec());
             i0 = e;
+        }
+        if r.chance(1, 4) {
+            for _ in 0..r.range(1, 3) {
+                let k = r.below(chunks.len() as u64 + 1) as usize;
+                chunks.insert(k, Vec::new());
+            }
         }
         out.push(fmt_acc(cap, t, &chunks));
     }
